@@ -5,7 +5,7 @@ From Coq Require Import ZArith List Bool Reals QArith Lia Lra.
 From Coquelicot Require Import Coquelicot.
 From CV Require Import Base.Num Base.RNum C06.RestraintModel C06.RestraintSched C06.RestraintTI C06.RestraintWork
   C06.RestraintHist C06.RestraintProofs C18.ValueModel C18.ValueProofs C18.ExtraProofs C06.RestraintManifold
-  C06.RestraintGen C06.RestraintGenProofs.
+  C06.RestraintGen C06.RestraintGenProofs C06.TIEstimator C06.RestraintTSF.
 Import ListNotations.
 
 (* ---- closed-form potentials (R instance of the model) ------------------------------------------ *)
@@ -205,6 +205,37 @@ Theorem C06_scheduled_center_on_manifold : forall (a b : vec3) (q1 q2 : quat) (l
 Proof. exact scheduled_center_on_manifold. Qed.
 Print Assumptions C06_scheduled_center_on_manifold.
 
+(* ---- changing force constant / staged TI on manifold-valued variables (fixed centre): reduction to the scalar model ----
+   The energy and dU/dk of the harmonic restraint on a unit-vector (quaternion) variable are, step by step, those of the
+   scalar harmonic restraint (centre 0, same width, not periodic) on the geodesic distance theta (omega); hence
+   C06_k_schedule_any_segmentation, C06_k_schedule_staged, C06_acc_work_k_is_sum, C06_ti_stage_mean and
+   C06_ti_line_once_per_stage hold for such a restraint with the history of geodesic distances as values. *)
+Theorem C06_k_moving_on_unit_vector : forall (k w : R) (a b : vec3), (w <> 0)%R -> is_unit a -> is_unit b ->
+  exists th : R, (0 <= th <= PI /\ cos th = v3dot Rops a b /\
+    harm_potential_d2 Rops k w (uv_dist2 Rops a b) = harm_potential Rops k (mkVar w false 0 0) th 0 /\
+    harm_potential_d2 Rops 1 w (uv_dist2 Rops a b) = harm_dUdk Rops (mkVar w false 0 0) th 0)%R.
+Proof. exact manifold_reduction_unit. Qed.
+Print Assumptions C06_k_moving_on_unit_vector.
+
+Theorem C06_k_moving_on_quaternion : forall (k w : R) (a b : quat), (w <> 0)%R -> q_unit a -> q_unit b ->
+  exists om : R, (0 <= om <= PI / 2 /\ cos om = Rabs (qdot Rops a b) /\
+    harm_potential_d2 Rops k w (q_dist2 Rops PI a b) = harm_potential Rops k (mkVar w false 0 0) om 0 /\
+    harm_potential_d2 Rops 1 w (q_dist2 Rops PI a b) = harm_dUdk Rops (mkVar w false 0 0) om 0)%R.
+Proof. exact manifold_reduction_quat. Qed.
+Print Assumptions C06_k_moving_on_quaternion.
+
+(* the order of updates inside one step: centres -> force constant (TI accumulation with dU/dk at the CURRENT values and the
+   updated centres) -> energy and forces at the CURRENT values with the updated parameters -> accumulated work *)
+Theorem C06_update_order : forall T (O : NumOps T) (c : rcfg) (s : rstate) (t rel : Z) (cont : bool) (xs : list T),
+  let s1 := centers_update O c s t rel cont in
+  let s2 := fst (k_update O c s1 t rel cont xs) in
+  o_energy (snd (rstep O c s t rel cont xs)) = sumT O (map (@pot3 T) (terms O c s2 xs)) /\
+  o_forces (snd (rstep O c s t rel cont xs)) = map (@frc3 T) (terms O c s2 xs) /\
+  o_log (snd (rstep O c s t rel cont xs)) = snd (k_update O c s1 t rel cont xs) /\
+  fst (rstep O c s t rel cont xs) = work_k O c (work_centers O c s2 t rel (map (@frc3 T) (terms O c s2 xs))) rel xs.
+Proof. exact @rstep_order. Qed.
+Print Assumptions C06_update_order.
+
 (* ---- accumulated work (R instance) ------------------------------------------------------------- *)
 (* steps_of c evs = the steps of the history with their values, each step once (run boundaries and restarts
    compute a step again and add nothing).  W = sum over the steps s of dU/dk(x_s) (k(s) - k(s-1)), k the schedule. *)
@@ -259,6 +290,37 @@ Theorem C06_ti_line_once_per_stage : forall T (O : NumOps T) (c : rcfg) (evs : l
   is_new (run O c evs) e = true /\ ((m_it (run O c evs) + 1 - c_it0 c) mod c_nsteps c = 0)%Z.
 Proof. intros T O c evs e H1 H2 H3 H4 H5 H6. exact (ti_line_only_at_stage_end O c H1 H2 H3 H4 H5 evs e H6). Qed.
 Print Assumptions C06_ti_line_once_per_stage.
+
+(* ---- timeStepFactor f (the bias is updated only at steps that are multiples of f; run protocol run_tsf) ----------------
+   Continuously moving centres are, after ANY history, the scheduled centres of the last updated step that is not beyond
+   the end of the schedule, last_update = f * (min(t, t0 + N) / f) (the configured centres before the first update).
+   In particular they stop short of the target when targetNumSteps is not a multiple of f (recorded finding). *)
+Theorem C06_center_schedule_timestepfactor : forall T (O : NumOps T) (f : Z) (c : rcfg) (evs : list event),
+  (0 < f)%Z -> c_chg_centers c = true -> c_nstages c = 0%Z -> (0 <= c_nsteps c)%Z -> (0 <= c_it0 c)%Z -> evs <> [] ->
+  let m := run_tsf O f c evs in
+  ((c_it0 c <= last_update f c (m_it m))%Z -> s_centers (m_st m) = closed_centers O c (last_update f c (m_it m))) /\
+  ((last_update f c (m_it m) < c_it0 c)%Z -> s_centers (m_st m) = c_centers0 c).
+Proof. exact @center_schedule_tsf. Qed.
+Print Assumptions C06_center_schedule_timestepfactor.
+
+(* ---- the TI estimator attached to a bias (colvarbias_ti, writeTISamples / writeTIPMF), every carrier, every segmentation ----
+   After ANY history the count and sum grids hold exactly the samples of the specification ti_samples: every NEW step (an
+   engine step that is not the first computation) contributes ONE sample - with same-step total forces its own total force
+   in the bin of its own value; with lagged total forces (its total force - the force this bias applied at the preceding
+   computation) in the bin of the preceding computation's value; steps computed again (run boundary, restart) add nothing. *)
+Theorem C06_ti_estimator_samples : forall T (O : NumOps T) (c : ticfg) (it0 : Z) (evs : list tievent) (b : Z),
+  ts_cnt (tm_st (ti_run O c it0 evs)) b = cnt_of (ti_samples O c None evs) b /\
+  ts_sum (tm_st (ti_run O c it0 evs)) b = sum_of O (ti_samples O c None evs) b.
+Proof. exact @ti_estimator_samples. Qed.
+Print Assumptions C06_ti_estimator_samples.
+
+(* ... and with lagged forces that sample is the SYSTEM force of the preceding computation whenever the engine's total force
+   is system force + the force this bias applied there *)
+Theorem C06_ti_estimator_lagged_system_force : forall (c : @ticfg R) (p i : @tiin R) (sys : R),
+  ti_same c = false -> in_tf i = (sys + in_fb p)%R ->
+  ti_here Rops c (Some p) (TStep i) = if bin_ok c (bin_of Rops c (in_x p)) then [(bin_of Rops c (in_x p), sys)] else [].
+Proof. exact ti_lagged_sample_is_system_force. Qed.
+Print Assumptions C06_ti_estimator_lagged_system_force.
 
 (* ---- non-vacuity and regression examples (rational carrier, vm_compute) ------------------------- *)
 (* a 3-stage lambda schedule run in one segment reaches the last stage with the last force constant *)
